@@ -1534,6 +1534,44 @@ impl HttpsListener {
             validate_sozu_id_header(hdr)?;
         }
 
+        // Everything that can fail is computed first, on copies: a patch that
+        // is answered with an error must leave the live listener untouched.
+        if let Some(ref new_hsts) = patch.hsts {
+            if new_hsts.enabled.is_none() {
+                return Err(ListenerError::HstsEnabledRequired);
+            }
+        }
+        let mut staged_rustls = None;
+        if let Some(ref alpn_wrapper) = patch.alpn_protocols {
+            let mut candidate = self.config.clone();
+            candidate.alpn_protocols = alpn_wrapper.values.clone();
+            staged_rustls = Some(Arc::new(Self::create_rustls_context(
+                &candidate,
+                self.resolver.clone(),
+            )?));
+        }
+        let answers_changed = patch.http_answers.is_some() || !patch.answers.is_empty();
+        let mut staged_answers = None;
+        if answers_changed {
+            let mut http_answers = self.config.http_answers.clone();
+            let mut answers = self.config.answers.clone();
+            if let Some(ref new_answers) = patch.http_answers {
+                crate::sozu_command::state::merge_custom_http_answers(&mut http_answers, new_answers);
+            }
+            for (code, body) in &patch.answers {
+                if !body.is_empty() {
+                    answers.insert(code.clone(), body.clone());
+                }
+            }
+            let mut answers_map = answers.clone();
+            if let Some(ref legacy) = http_answers {
+                crate::protocol::http::answers::merge_legacy_into_map(&mut answers_map, legacy);
+            }
+            let compiled = HttpAnswers::new(&answers_map)
+                .map_err(|(name, error)| ListenerError::TemplateParse(name, error))?;
+            staged_answers = Some((http_answers, answers, compiled));
+        }
+
         // --- simple field patches ---
         if let Some(v) = patch.public_address {
             self.config.public_address = Some(v);
@@ -1638,12 +1676,7 @@ impl HttpsListener {
         // the master-side state would still diverge from the worker-side
         // refusal, but the worker itself stays consistent.
         if let Some(ref alpn_wrapper) = patch.alpn_protocols {
-            let mut candidate = self.config.clone();
-            candidate.alpn_protocols = alpn_wrapper.values.clone();
-            let new_rustls = Arc::new(Self::create_rustls_context(
-                &candidate,
-                self.resolver.clone(),
-            )?);
+            let new_rustls = staged_rustls.take().expect("staged above for this patch");
             // Build succeeded — commit.
             self.config.alpn_protocols = alpn_wrapper.values.clone();
             self.rustls_details = new_rustls;
@@ -1657,30 +1690,12 @@ impl HttpsListener {
             );
         }
 
-        // HTTP answers: merge legacy `http_answers` and the new `answers`
-        // map on top of the existing config, then rebuild the listener-level
-        // template registry. Per-cluster overrides in
-        // `HttpAnswers::cluster_answers` are preserved across the rebuild.
-        let answers_changed = patch.http_answers.is_some() || !patch.answers.is_empty();
-        if answers_changed {
-            if let Some(ref new_answers) = patch.http_answers {
-                crate::sozu_command::state::merge_custom_http_answers(
-                    &mut self.config.http_answers,
-                    new_answers,
-                );
-            }
-            for (code, body) in &patch.answers {
-                if !body.is_empty() {
-                    self.config.answers.insert(code.clone(), body.clone());
-                }
-            }
-
-            let mut answers_map = self.config.answers.clone();
-            if let Some(ref legacy) = self.config.http_answers {
-                crate::protocol::http::answers::merge_legacy_into_map(&mut answers_map, legacy);
-            }
-            let mut rebuilt = HttpAnswers::new(&answers_map)
-                .map_err(|(name, error)| ListenerError::TemplateParse(name, error))?;
+        // HTTP answers: commit what was staged (and compiled) above. Per-cluster
+        // overrides in `HttpAnswers::cluster_answers` are preserved across the
+        // rebuild.
+        if let Some((http_answers, answers, mut rebuilt)) = staged_answers {
+            self.config.http_answers = http_answers;
+            self.config.answers = answers;
             let preserved = std::mem::take(&mut self.answers.borrow_mut().cluster_answers);
             rebuilt.cluster_answers = preserved;
             *self.answers.borrow_mut() = rebuilt;
